@@ -101,6 +101,7 @@ var registry = []*HarnessSpec{
 	{Prop: "C18", Name: "zzH18seq", Pkg: pkgCorerad, Tier: "quick", Bounds: "two messages through Monitor.monitor (real Listen and callback) from one link-local / global / unique-local sender with / without a zone: an RA followed by an RA / RS / NA; router and prefix lifetimes, flags symbolic"},
 	{Prop: "C12", Name: "zzH12wire", Pkg: pkgCorerad, Extra: []string{pkgConfig}, Tier: "quick", Bounds: "one accepted advertising interface with the stanzas of one kind at a time (header fields; static prefix; static route; RDNSS + DNSSL; MTU + captive portal + PREF64), all durations and header fields symbolic (real parser), forwarding on/off; ndp.MarshalMessage then ndp.ParseMessage through their real bodies"},
 	{Prop: "C12", Name: "zzH12wireDep", Pkg: pkgCorerad, Extra: []string{pkgConfig}, Tier: "quick", MonoTime: true, Bounds: "one deprecated prefix or one deprecated route, lifetimes symbolic (real parser), arbitrary epoch <= now (monotonic readings)"},
+	{Prop: "C03", Name: "zzH12wireDep", Pkg: pkgCorerad, Extra: []string{pkgConfig}, Tier: "quick", MonoTime: true, Bounds: "a deprecated prefix or route from the real parser at an arbitrary instant: the RA encodes and decodes"},
 	{Prop: "C12", Name: "zzH12oracle", Pkg: pkgCorerad, Tier: "quick", Bounds: "the harnesses' definition of a lifetime on the wire against ndp's real encoder and decoder: prefix valid / preferred, route, RDNSS, DNSSL lifetime, any ns value in [0, Infinity]"},
 	{Prop: "C12", Name: "zzH12ra", Pkg: pkgCorerad, Tier: "quick", Bounds: "all header fields of both RAs symbolic"},
 	{Prop: "C12", Name: "zzH12mtu", Pkg: pkgCorerad, Tier: "quick", Bounds: "MTU option present/absent per side, values symbolic, distinct objects"},
@@ -112,6 +113,7 @@ var registry = []*HarnessSpec{
 	{Prop: "C14", Name: "zzH14a", Pkg: pkgPlugin, Tier: "quick", Params: map[string]int{"n": 3, "n@thorough": 4}, Bounds: "address list of n=3 (thorough 4) fully symbolic entries (either family, any length, six flags)"},
 	{Prop: "C15", Name: "zzH15", Pkg: pkgPlugin, Tier: "quick", Params: map[string]int{"n": 2, "n@thorough": 3}, Bounds: "route list of n=2 (thorough 3) symbolic masked prefixes of either family, any length"},
 	{Prop: "C16", Name: "zzH16", Pkg: pkgPlugin, Tier: "quick", MonoTime: true, Params: map[string]int{"mono": 1, "moving": 1}, Bounds: "epoch and three non-decreasing monotonic clock readings (what time.Now returns; possibly before the epoch), lifetimes any ns value the parser accepts below 2^32 s"},
+	{Prop: "C03", Name: "zzH16", Pkg: pkgPlugin, Tier: "quick", MonoTime: true, Params: map[string]int{"mono": 1, "moving": 1}, Bounds: "deprecated prefix and route lifetimes at three clock readings: never negative, preferred never above valid (what the wire can carry)"},
 	{Prop: "C16", Name: "zzH16prep", Pkg: pkgPlugin, Extra: []string{pkgSystem}, Tier: "quick", MonoTime: true, Bounds: "real Plugin.Prepare of Prefix, Route, RDNSS, LLA, MTU, DNSSL run once or twice (re-initialisation); epoch, lifetimes, flags, deprecated, wildcard symbolic; system.NewAddresser is an environment stub"},
 	{Prop: "C01", Name: "zzH16prep", Pkg: pkgPlugin, Extra: []string{pkgSystem}, Tier: "quick", MonoTime: true, Bounds: "initialising an interface (Plugin.Prepare, once or twice) never alters a configuration field of a plugin"},
 	{Prop: "C16", Name: "zzH16wall", Pkg: pkgPlugin, Tier: "thorough", Params: map[string]int{"mono": 0, "moving": 0}, Bounds: "same with wall-clock-only readings (years 1970..2242), no reading more than 100 years before the epoch", Outside: "a wall clock more than a century before the daemon's start: epoch+lifetime-now leaves the range of time.Duration (Time.Sub saturates at 292 years); unreachable in production, where the epoch and every reading come from time.Now and carry a monotonic clock (S16)"},
